@@ -328,6 +328,10 @@ func (t *Topic) collect(event Event) error {
 	prev, ok := t.updateEvent(event.State)
 	if ok {
 		event.previousState = prev
+	} else {
+		// The ID is new on this topic. An event republished from another
+		// topic must not carry the previous state it had over there.
+		event.previousState = EventState{}
 	}
 
 	t.collected.Add(1)
